@@ -14,9 +14,6 @@ Definition clock_texts_modelled : bool :=
 Lemma clock_texts_current : clock_texts_modelled = true.
 Proof. reflexivity. Qed.
 
-Lemma wait_until_checks_stop : shape_wait_until_checks_stop = true.
-Proof. reflexivity. Qed.
-
 (* ---------- boolean comparisons ---------- *)
 
 Lemma Qleb_true a b : Qleb a b = true <-> a <= b.
